@@ -435,8 +435,9 @@ class RetryExecutor(CanCustomizeBind, Executor):
         assert found_job, "BUG: no job associated with delegate %s" % delegate_future
 
         if delegate_future.cancelled():
-            # nothing to do, retrying on cancel is not allowed
+            # retrying on cancel is not allowed; the job is finished with
             self._log.debug("Delegate was cancelled: %s", delegate_future)
+            self._pop_job(found_job)
             return
 
         (should_retry, sleep_time) = eval_policy(found_job, self._log)
